@@ -582,7 +582,10 @@ def run_align(case):
     nop = nop_of(case["isa"])
     for si, ivs in enumerate(lst.secs):
         for ii, toks in enumerate(ivs):
-            got = bytes(r.bu.intervals[si][ii].contents)
+            gbi = r.bu.intervals[si][ii]
+            # uninitialised bytes read as zeros
+            got = bytes(gbi.contents)[:gbi.size] + bytes(
+                max(0, gbi.size - len(gbi.contents)))
             body = [t for t in toks if t.t in "ID"]
             pad = match_with_padding(body, got, nop)
             if pad is None:
